@@ -16,4 +16,14 @@ for patch in mutants/*.patch; do
   if [ -n "$caught" ]; then echo "CAUGHT  $name by$caught" | tee -a mutants/RESULTS.txt
   else echo "MISSED  $name (targets: $targets)" | tee -a mutants/RESULTS.txt; fail=1; fi
 done
+# the changes written by independent sub-agents (seeded/<name>/patch.diff) against the check of their own property
+for patch in seeded/*/patch.diff; do
+  name="$(basename "$(dirname "$patch")")"
+  t="$(echo "$name" | cut -c1-3)"
+  line="$(tools/mutant.sh "$patch" "$t" 2>&1 | tail -1)"
+  case "$line" in
+    *"exit 1"*) echo "CAUGHT  seeded/$name by $t" | tee -a mutants/RESULTS.txt;;
+    *) echo "MISSED  seeded/$name (target: $t)" | tee -a mutants/RESULTS.txt; fail=1;;
+  esac
+done
 exit $fail
